@@ -24,7 +24,6 @@ CONSTANTS
   QueueCap = %(cap)d
   MaxFail = %(fail)d
   MaxExpire = %(exp)d
-  SliceLock = %(slice)s
 %(tail)s
 """
 SAFETY = "SYMMETRY Symm\nINVARIANTS TypeOK NoTwin Bounded Once Agree LockExclusive QueueBounded"
@@ -40,7 +39,6 @@ CONSTANTS
   QueueCap = 1000000
   MaxFail = 1000000
   MaxExpire = 1000000
-  SliceLock = %s
   TraceFile = "%s"
 CHECK_DEADLOCK FALSE
 """
@@ -50,54 +48,48 @@ def _names(p, n):
     return ",".join("%s%d" % (p, i + 1) for i in range(n))
 
 
-def mc_cfg(scenario, k, c, cap, fail, exp, slice_lock, live=False):
+def mc_cfg(scenario, k, c, cap, fail, exp, live=False):
     return MC_CFG % dict(spec="LiveSpec" if live else "Spec", callers=_names("c", k), workers=_names("w", c),
-                         scenario=scenario, cap=cap, fail=fail, exp=exp, slice="TRUE" if slice_lock else "FALSE",
-                         tail=LIVE if live else SAFETY)
+                         scenario=scenario, cap=cap, fail=fail, exp=exp, tail=LIVE if live else SAFETY)
 
 
 def run_mc(ctx):
     """MC: PromClient |= NoTwin, Bounded, Once, Agree for small constants, both variants of processJob.
     Returns (stats, leads) - leads are the model-level counterexamples of the pinned variant."""
     W = 4
-    # (tag, scenario, K, C, cap, fail, exp, slice_lock, expect_hold)
+    # (tag, scenario, K, C, cap, fail, exp)
     plan = [
-        ("instant-pinned", "instant", 4, 2, 2, 2, 1, False, True),
-        ("instant-cap1", "instant", 3, 2, 1, 1, 1, False, True),
-        ("f10-pinned", "f10", 3, 2, 2, 1, 0, False, False),
-        ("f10-repaired", "f10", 3, 2, 2, 1, 1, True, True),
-        ("range1-pinned", "range1", 3, 2, 2, 1, 1, False, True),
+        ("instant", "instant", 4, 2, 2, 2, 1),
+        ("instant-cap1", "instant", 3, 2, 1, 1, 1),
+        ("f10", "f10", 3, 2, 2, 1, 1),
+        ("range1", "range1", 3, 2, 2, 1, 1),
     ]
     if ctx.thorough:
         plan += [
-            ("instant-repaired", "instant", 4, 2, 2, 2, 1, True, True),
-            ("mixed-repaired", "mixed", 4, 2, 2, 1, 1, True, True),
-            ("instant-K5", "instant", 5, 2, 2, 1, 1, False, True),
+            ("instant-K5", "instant", 5, 2, 2, 1, 1),
+            ("mixed", "mixed", 4, 2, 2, 1, 1),
         ]
     leads = []
 
     def one(p):
-        tag, sc, k, c, cap, fail, exp, sl, hold = p
+        tag, sc, k, c, cap, fail, exp = p
         name = "c14_%s.cfg" % tag
-        r = ctx.tlc("PromClientMC", name, files={name: mc_cfg(sc, k, c, cap, fail, exp, sl)}, workers=W,
-                    timeout=3000, tag=tag, allow_violation=not hold, heap="6g")
-        if not hold and not r["invariant_violated"]:
-            raise MachineryError("MC %s: the pinned variant was expected to violate NoTwin/Once in the f10 scenario" % tag)
-        return r
+        return ctx.tlc("PromClientMC", name, files={name: mc_cfg(sc, k, c, cap, fail, exp)}, workers=W,
+                       timeout=3000, tag=tag, allow_violation=True, heap="6g")
 
     def live(p):
-        tag, sc, k, c, sl = p
+        tag, sc, k, c = p
         name = "c14_%s.cfg" % tag
-        return ctx.tlc("PromClientMC", name, files={name: mc_cfg(sc, k, c, 1, 1, 0, sl, live=True)}, workers=W,
+        return ctx.tlc("PromClientMC", name, files={name: mc_cfg(sc, k, c, 1, 1, 0, live=True)}, workers=W,
                        timeout=3000, tag=tag, heap="6g")
 
     # liveness (weak fairness on callers and workers): every caller returns
-    lives = [("live-instant", "instant", 3, 2, False), ("live-f10-repaired", "f10", 2, 2, True)]
+    lives = [("live-instant", "instant", 3, 2), ("live-f10", "f10", 2, 2)]
     with concurrent.futures.ThreadPoolExecutor(max_workers=4) as ex:
         fs = [ex.submit(one, p) for p in plan] + [ex.submit(live, p) for p in lives]
         runs = [f.result() for f in fs]
     for p, r in zip(plan, runs):
-        if not p[-1]:
+        if r["invariant_violated"]:
             leads.append("%s:%s" % (p[0], r["invariant_violated"]))
     return runs, leads
 
@@ -211,7 +203,6 @@ CONSTANTS
   QueueCap = %d
   MaxFail = %d
   MaxExpire = 0
-  SliceLock = FALSE
 INVARIANTS EmitBehaviour SchedInv
 CHECK_DEADLOCK FALSE
 """
@@ -301,7 +292,6 @@ def run(ctx, cases_override=None, repeat=1, confirm_pass=False):
     if foreign:
         raise MachineryError("race detector reported %d race(s) outside internal/promapi (harness bug):\n%s" % (
             foreign, [r for r in race_reps if race_sig(r) is None][0][:3000]))
-    slice_lock = any(r["ev"] == "H" and r["kind"] == "w" and r["h"] == "lock" for r in trace)
     # ---- JUDGE (shards of whole cases, judged in parallel)
     nj = 1 if len(trace) < 4000 else (12 if thorough else 8)
     parts = [[] for _ in range(nj)]
@@ -325,7 +315,7 @@ def run(ctx, cases_override=None, repeat=1, confirm_pass=False):
         cfg = "c14_trace_%d.cfg" % i
         p = write_ndjson(ctx.path("c14", name), parts[i])
         j = ctx.tlc("PromClientTrace", cfg, workers=1, timeout=3000, heap="4g", tag="judge-%d" % i,
-                    files={name: p, cfg: TRACE_CFG % ("TRUE" if slice_lock else "FALSE", name)})
+                    files={name: p, cfg: TRACE_CFG % name})
         done = prints(j, "DONE")
         if not done or done[0][0] != len(parts[i]):
             raise MachineryError("JUDGE consumed %s of %d trace records" % (done, len(parts[i])))
@@ -379,8 +369,7 @@ def run(ctx, cases_override=None, repeat=1, confirm_pass=False):
     if unreplayable:
         drift.append("%d of %d TLC behaviours could not be replayed on the real code, e.g. behaviour %d: %s" % (
             len(unreplayable), len(ends), unreplayable[0]["id"], unreplayable[0].get("replay")))
-    twin_cases = [c for c in cases if c["mix"] == "rangeTwin"]
-    if cases_override is None and h3 and not slice_lock and leads and twin_cases and not any(v["detail"].get("shared") for v in viols):
+    if cases_override is None and leads and not viols:
         raise MachineryError("model-level counterexample (%s) not reproduced on the real code: spec bug" % leads)
     hev = [r for r in trace if r["ev"] == "H"]
     traced_cases = {r["id"] for r in trace if r["ev"] == "Case" and r.get("traced")}
@@ -409,12 +398,12 @@ def run(ctx, cases_override=None, repeat=1, confirm_pass=False):
         "workload_space": space, "trace_records": len(trace), "hook_events": len(hev),
         "server_requests": sum(1 for r in trace if r["ev"] == "S" and r["h"] == "start"),
         "behaviours_generated": len(behaviours), "behaviours_replayed": len(ends) - len(unreplayable), "unreplayable": len(unreplayable),
-        "hook_h3": h3, "slice_lock_variant": slice_lock, "model_lead_cases": len(lead_cases),
+        "hook_h3": h3, "model_lead_cases": len(lead_cases),
         "race_reports": len(race_reps), "untraced_cases": len(cases) - len(traced_cases), "transient_unreproduced": transient,
     }
     return vlib.conclude(ctx, viols, "model_checking", cov, [
         "TLC model-checks NoTwin, Bounded, Once, Agree (+ termination under weak fairness) of the impl-shaped client for small constants, "
-        "for the pinned processJob and for processJob serialised per cache key",
+        "(processJob serialised per cache key, as repaired for F10)",
         "TLC-simulated behaviours of the small instance are driven into the real goroutines through the hook's gate (the controller releases "
         "exactly the next action's actor; the fake server holds each request until the behaviour decides its outcome); "
         "every hook event (H3, build tag verif) of every traced run is validated as a step of PromClient by TLC; "
